@@ -561,6 +561,457 @@ theorem case_hit_quoted (cx : RCtx R) (cfg : ScanCfg R) (hrn : cfg.readNum = cx.
       | none => rfl
       | some v => cases v <;> rfl
 
+
+/-! ### what the document says a block tree prints -/
+
+def hitOf (cx : RCtx R) (e : List Nat) : Bool := isTrue (evalText (specOf cx) [] e 34) == some true
+
+mutual
+def expBT (cx : RCtx R) : BT → List Nat
+  | .segs l => expSegs cx l
+  | .ifc e body tail => if hitOf cx e = true then expBTs cx body else expTail cx tail
+def expBTs (cx : RCtx R) : BTs → List Nat
+  | .nil => []
+  | .cons b r => expBT cx b ++ expBTs cx r
+def expTail (cx : RCtx R) : BTail → List Nat
+  | .fin => []
+  | .els body => expBTs cx body
+  | .elif e body tail => if hitOf cx e = true then expBTs cx body else expTail cx tail
 end
+
+/-- the case text scans to a non-empty list -/
+def exprOk (rn : List Nat → Option (Num R)) (e : List Nat) : Prop :=
+  ∀ items : List (Item R),
+    Qentem.Expr.parseTop ({ readNum := rn } : ScanCfg R) (e ++ [34]) 0 e.length = .ok items → items ≠ []
+
+mutual
+def BT.caseOk (rn : List Nat → Option (Num R)) : BT → Prop
+  | .segs _ => True
+  | .ifc e body tail => (tail = .fin ∨ exprOk rn e) ∧ BTs.caseOk rn body ∧ BTail.caseOk rn tail
+def BTs.caseOk (rn : List Nat → Option (Num R)) : BTs → Prop
+  | .nil => True
+  | .cons b r => BT.caseOk rn b ∧ BTs.caseOk rn r
+def BTail.caseOk (rn : List Nat → Option (Num R)) : BTail → Prop
+  | .fin => True
+  | .els body => BTs.caseOk rn body
+  | .elif e body tail => exprOk rn e ∧ BTs.caseOk rn body ∧ BTail.caseOk rn tail
+end
+
+mutual
+def BT.pathOk : BT → Prop
+  | .segs l => ∀ s ∈ l, s.pathOk
+  | .ifc _ body tail => BTs.pathOk body ∧ BTail.pathOk tail
+def BTs.pathOk : BTs → Prop
+  | .nil => True
+  | .cons b r => BT.pathOk b ∧ BTs.pathOk r
+def BTail.pathOk : BTail → Prop
+  | .fin => True
+  | .els body => BTs.pathOk body
+  | .elif _ body tail => BTs.pathOk body ∧ BTail.pathOk tail
+end
+
+mutual
+def rcostBT : BT → Nat
+  | .segs l => nTags l
+  | .ifc _ _ _ => 1
+def rcostBTs : BTs → Nat
+  | .nil => 0
+  | .cons b r => rcostBT b + rcostBTs r
+end
+
+mutual
+def rneedBT : BT → Nat
+  | .segs _ => 1
+  | .ifc _ body tail => rneedBTs body + rcostBTs body + rneedTail tail + 3
+def rneedBTs : BTs → Nat
+  | .nil => 1
+  | .cons b r => rneedBT b + rneedBTs r
+def rneedTail : BTail → Nat
+  | .fin => 1
+  | .els body => rneedBTs body + rcostBTs body + 1
+  | .elif _ body tail => rneedBTs body + rcostBTs body + rneedTail tail + 1
+end
+
+theorem rneedBTs_pos : ∀ (bs : BTs), 1 ≤ rneedBTs bs
+  | .nil => by simp [rneedBTs]
+  | .cons b r => by have := rneedBTs_pos r; simp only [rneedBTs]; omega
+
+theorem rneedTail_pos (t : BTail) : 1 ≤ rneedTail t := by
+  cases t <;> simp [rneedTail] <;> omega
+
+/-- the decision of one quoted case that is an expression -/
+theorem one_case (cx : RCtx R) (cfg : ScanCfg R) (hrn : cfg.readNum = cx.readNum) (st : RState)
+    (A0 e post : List Nat) (hc : cx.content = (A0 ++ [34]) ++ (e ++ [34]) ++ post) (hp : plainL e)
+    (hex : exprOk cfg.readNum e) :
+    (itemsAt cfg cx.content (A0.length + 1) (A0.length + 1 + e.length)).isEmpty = false ∧
+    ∃ v, evalExprs cx st (itemsAt cfg cx.content (A0.length + 1) (A0.length + 1 + e.length)) = .ok v ∧
+      (truth v == some true) = hitOf cx e := by
+  obtain ⟨h1, _, h3⟩ := case_hit_quoted cx cfg hrn st A0 e post hc hp
+  have hne : (itemsAt cfg cx.content (A0.length + 1) (A0.length + 1 + e.length)).isEmpty = false := by
+    rw [h1]
+    obtain ⟨items0, hitems0⟩ := Qentem.Expr.parseTop_total ({ readNum := cx.readNum } : ScanCfg R) (e ++ [34]) 0 e.length (by simp)
+    rw [hitems0]
+    have := hex items0 (by rw [hrn]; exact hitems0)
+    cases items0 with
+    | nil => exact absurd rfl this
+    | cons x xs => rfl
+  exact ⟨hne, h3 hne⟩
+
+theorem ifCases_cons (cx : RCtx R) (f : Nat) (cs : List (Item R)) (sub : List (Tag R)) (o e : Nat)
+    (rest : List (IfCase R)) (st : RState) (v : Option (Val R)) (hne : cs.isEmpty = false)
+    (hv : evalExprs cx st cs = .ok v) :
+    ifCases cx (f + 1) (.mk cs sub o e :: rest) st =
+      if (truth v == some true) = true then render cx f sub o e st else ifCases cx f rest st := by
+  simp only [ifCases, hne, Bool.false_eq_true, if_false, hv, bind, Except.bind, pure, Except.pure]
+
+/-- from "render up to the end, then nothing more" to the emitted text -/
+theorem render_finish (cx : RCtx R) (tags : List (Tag R)) (post X : List Nat) (Bl E : Nat) (st : RState)
+    (fuel rc : Nat) (hf : 1 ≤ fuel)
+    (h : ∃ (B2 txt2 : List Nat) (st2 : RState), cx.content = B2 ++ (txt2 ++ post) ∧ (B2 ++ txt2).length = E ∧
+      st2.out ++ txt2 = st.out ++ X ∧ st2.items = st.items ∧
+      render cx (fuel + rc) tags Bl E st = render cx fuel [] B2.length E st2) :
+    render cx (fuel + rc) tags Bl E st = .ok (emit st X) := by
+  obtain ⟨B2, txt2, st2, h1, h2, h3, h4, h5⟩ := h
+  rw [h5]
+  cases fuel with
+  | zero => omega
+  | succ f =>
+    have hsl : slice cx.content B2.length E = .ok txt2 := by
+      rw [← h2, h1]; exact slice_from B2 txt2 post
+    simp only [render, hsl, bind, Except.bind]
+    congr 1
+    apply RState.ext'
+    · simp only [emit]; exact h3
+    · simp only [emit]; exact h4
+
+
+theorem emit_nil (st : RState) : emit st [] = st := by
+  apply RState.ext' <;> simp [emit]
+
+theorem emit_emit (st : RState) (a b : List Nat) : emit (emit st a) b = emit st (a ++ b) := by
+  apply RState.ext' <;> simp [emit, List.append_assoc]
+
+mutual
+theorem render_bt (cx : RCtx R) (cfg : ScanCfg R) (hg : cx.guardIndexRead = true) (hrn : cfg.readNum = cx.readNum) :
+    ∀ (b : BT) (more : List (Tag R)) (endO : Nat) (post B txt : List Nat) (st : RState) (fuel : Nat),
+      cx.content = B ++ (txt ++ (printBT b ++ post)) → b.ok → b.pathOk → b.caseOk cfg.readNum → rneedBT b ≤ fuel →
+      ∃ (B2 txt2 : List Nat) (st2 : RState), cx.content = B2 ++ (txt2 ++ post) ∧
+        (B2 ++ txt2).length = (B ++ txt).length + (printBT b).length ∧
+        st2.out ++ txt2 = st.out ++ (txt ++ expBT cx b) ∧ st2.items = st.items ∧
+        render cx (fuel + rcostBT b) (tagsBT cfg cx.content (B ++ txt).length b ++ more) B.length endO st =
+          render cx fuel more B2.length endO st2
+  | .segs l, more, endO, post, B, txt, st, fuel, hc, hok, hpath, _, hf => by
+    simp only [printBT] at hc
+    simp only [BT.ok] at hok
+    simp only [BT.pathOk] at hpath
+    simp only [rneedBT] at hf
+    simpa [printBT, expBT, rcostBT, tagsBT] using
+      render_segs_more cx cfg hg hrn more endO post l B txt st fuel hc hpath hok hf
+  | .ifc e body tail, more, endO, post, B, txt, st, fuel, hc, hok, hpath, hcase, hf => by
+    simp only [BT.ok] at hok
+    obtain ⟨hpe, hq34, hbody, htail⟩ := hok
+    simp only [BT.pathOk] at hpath
+    simp only [BT.caseOk] at hcase
+    obtain ⟨hfirst, hcb, hct⟩ := hcase
+    simp only [rneedBT] at hf
+    simp only [printBT] at hc
+    have htp := printTail_pos tail
+    -- the content around the case text
+    have hcq : cx.content = ((B ++ txt ++ [60, 105, 102, 32, 99, 97, 115, 101, 61]) ++ [34]) ++ (e ++ [34]) ++
+        ([62] ++ (printBTs body ++ printTail tail ++ post)) := by
+      rw [hc]; simp [IFOPEN, List.append_assoc]
+    have hA : (B ++ txt ++ [60, 105, 102, 32, 99, 97, 115, 101, 61]).length + 1 = (B ++ txt).length + 10 := by
+      simp only [List.length_append, List.length_cons, List.length_nil]
+    obtain ⟨hemp, hh1, hh2⟩ := case_hit_quoted cx cfg hrn (emit st txt) _ e _ hcq hpe
+    rw [hA] at hemp hh1 hh2
+    have hsl : slice cx.content B.length (B ++ txt).length = .ok txt := by rw [hc]; exact slice_from B txt _
+    have hl2 : (B ++ txt ++ (IFOPEN ++ e ++ [34, 62])).length = (B ++ txt).length + 12 + e.length := by
+      simp [IFOPEN]; omega
+    have hlb : (printBT (.ifc e body tail)).length = 12 + e.length + (printBTs body).length + (printTail tail).length := by
+      simp [printBT, IFOPEN]; omega
+    -- the tag renders to the documented text
+    have hrt : renderTag cx fuel
+        (Tag.ifT (IfCase.mk (itemsAt cfg cx.content ((B ++ txt).length + 10) ((B ++ txt).length + 10 + e.length))
+            (tagsBTs cfg cx.content ((B ++ txt).length + 12 + e.length) body) ((B ++ txt).length + 12 + e.length)
+            ((B ++ txt).length + 12 + e.length + (printBTs body).length) ::
+          casesT cfg cx.content ((B ++ txt).length + 12 + e.length + (printBTs body).length) tail) (B ++ txt).length
+          ((B ++ txt).length + 12 + e.length + (printBTs body).length + (printTail tail).length)) B.length st =
+        .ok (emit (emit st txt) (expBT cx (.ifc e body tail)),
+          (B ++ txt).length + 12 + e.length + (printBTs body).length + (printTail tail).length) := by
+      obtain ⟨F, rfl⟩ : ∃ F, fuel = F + 2 := ⟨fuel - 2, by omega⟩
+      simp only [renderTag, hsl, bind, Except.bind]
+      cases hie : (itemsAt cfg cx.content ((B ++ txt).length + 10) ((B ++ txt).length + 10 + e.length)).isEmpty with
+      | true =>
+        simp only [if_true]
+        have htf : tail = .fin := by
+          rcases hfirst with h | h
+          · exact h
+          · have := (one_case cx cfg hrn (emit st txt) _ e _ hcq hpe h).1
+            rw [hA] at this; rw [this] at hie; cases hie
+        have hhit : hitOf cx e = false := hh1 hie
+        simp only [expBT, hhit, Bool.false_eq_true, if_false, htf, expTail, emit_nil]
+      | false =>
+        obtain ⟨v, hv, hvt⟩ := hh2 hie
+        simp only [Bool.false_eq_true, if_false]
+        rw [ifCases_cons cx F _ _ _ _ _ _ v hie hv]
+        have hvt' : (truth v == some true) = hitOf cx e := hvt
+        rw [hvt']
+        cases hhit : hitOf cx e with
+        | true =>
+          simp only [if_true, expBT, hhit]
+          have hc2 : cx.content = (B ++ txt ++ (IFOPEN ++ e ++ [34, 62])) ++ ([] ++ (printBTs body ++ (printTail tail ++ post))) := by
+            rw [hc]; simp [List.append_assoc]
+          have hr := render_bts cx cfg hg hrn body [] ((B ++ txt).length + 12 + e.length + (printBTs body).length)
+            (printTail tail ++ post) (B ++ txt ++ (IFOPEN ++ e ++ [34, 62])) [] (emit st txt) (F - rcostBTs body)
+            hc2 hbody hpath.1 hcb (by omega)
+          simp only [List.append_nil, List.nil_append, hl2] at hr
+          have := render_finish cx (tagsBTs cfg cx.content ((B ++ txt).length + 12 + e.length) body) (printTail tail ++ post)
+            (expBTs cx body) ((B ++ txt).length + 12 + e.length)
+            ((B ++ txt).length + 12 + e.length + (printBTs body).length) (emit st txt) (F - rcostBTs body) (rcostBTs body)
+            (by have := rneedBTs_pos body; omega) hr
+          rw [show F - rcostBTs body + rcostBTs body = F by omega] at this
+          rw [this]
+        | false =>
+          simp only [Bool.false_eq_true, if_false, expBT, hhit]
+          have hc3 : cx.content = (B ++ txt ++ (IFOPEN ++ e ++ [34, 62]) ++ printBTs body) ++ (printTail tail ++ post) := by
+            rw [hc]; simp [List.append_assoc]
+          have hl3 : (B ++ txt ++ (IFOPEN ++ e ++ [34, 62]) ++ printBTs body).length =
+              (B ++ txt).length + 12 + e.length + (printBTs body).length := by
+            rw [List.length_append, hl2]
+          have := render_tail cx cfg hg hrn tail (B ++ txt ++ (IFOPEN ++ e ++ [34, 62]) ++ printBTs body) post
+            (emit st txt) F hc3 htail hpath.2 hct (by omega)
+          rw [hl3] at this
+          rw [this]
+    refine ⟨B ++ txt ++ printBT (.ifc e body tail), [], emit (emit st txt) (expBT cx (.ifc e body tail)),
+      by rw [hc]; simp [printBT, List.append_assoc], by simp [List.length_append]; omega,
+      by simp [emit, List.append_assoc], by simp [emit], ?_⟩
+    simp only [tagsBT, rcostBT, List.cons_append, List.nil_append, render, hrt, bind, Except.bind]
+    congr 1
+    simp only [List.length_append, hlb]; omega
+theorem render_bts (cx : RCtx R) (cfg : ScanCfg R) (hg : cx.guardIndexRead = true) (hrn : cfg.readNum = cx.readNum) :
+    ∀ (bs : BTs) (more : List (Tag R)) (endO : Nat) (post B txt : List Nat) (st : RState) (fuel : Nat),
+      cx.content = B ++ (txt ++ (printBTs bs ++ post)) → bs.ok → bs.pathOk → bs.caseOk cfg.readNum → rneedBTs bs ≤ fuel →
+      ∃ (B2 txt2 : List Nat) (st2 : RState), cx.content = B2 ++ (txt2 ++ post) ∧
+        (B2 ++ txt2).length = (B ++ txt).length + (printBTs bs).length ∧
+        st2.out ++ txt2 = st.out ++ (txt ++ expBTs cx bs) ∧ st2.items = st.items ∧
+        render cx (fuel + rcostBTs bs) (tagsBTs cfg cx.content (B ++ txt).length bs ++ more) B.length endO st =
+          render cx fuel more B2.length endO st2
+  | .nil, more, endO, post, B, txt, st, fuel, hc, _, _, _, _ =>
+    ⟨B, txt, st, by simpa [printBTs] using hc, by simp [printBTs], by simp [expBTs], rfl, by simp [tagsBTs, rcostBTs]⟩
+  | .cons b r, more, endO, post, B, txt, st, fuel, hc, hok, hpath, hcase, hf => by
+    simp only [BTs.ok] at hok
+    simp only [BTs.pathOk] at hpath
+    simp only [BTs.caseOk] at hcase
+    simp only [rneedBTs] at hf
+    simp only [printBTs] at hc
+    have hp1 := rneedBTs_pos r
+    obtain ⟨B1, txt1, st1, g1, g2, g3, g4, g5⟩ := render_bt cx cfg hg hrn b
+      (tagsBTs cfg cx.content ((B ++ txt).length + (printBT b).length) r ++ more) endO (printBTs r ++ post) B txt st
+      (fuel + rcostBTs r) (by rw [hc]; simp [List.append_assoc]) hok.1 hpath.1 hcase.1 (by omega)
+    obtain ⟨B2, txt2, st2, h1, h2, h3, h4, h5⟩ := render_bts cx cfg hg hrn r more endO post B1 txt1 st1 fuel g1
+      hok.2 hpath.2 hcase.2 (by omega)
+    refine ⟨B2, txt2, st2, h1, ?_, ?_, by rw [h4, g4], ?_⟩
+    · rw [h2, g2]; simp [printBTs, List.length_append]; omega
+    · rw [h3, ← List.append_assoc, g3]; simp [expBTs, List.append_assoc]
+    · simp only [tagsBTs, rcostBTs, List.append_assoc]
+      rw [show fuel + (rcostBT b + rcostBTs r) = fuel + rcostBTs r + rcostBT b by omega, g5, ← g2, h5]
+theorem render_tail (cx : RCtx R) (cfg : ScanCfg R) (hg : cx.guardIndexRead = true) (hrn : cfg.readNum = cx.readNum) :
+    ∀ (t : BTail) (Pre post : List Nat) (st : RState) (fuel : Nat),
+      cx.content = Pre ++ (printTail t ++ post) → t.ok → t.pathOk → t.caseOk cfg.readNum → rneedTail t ≤ fuel →
+      ifCases cx fuel (casesT cfg cx.content Pre.length t) st = .ok (emit st (expTail cx t))
+  | .fin, Pre, post, st, fuel, hc, _, _, _, hf => by
+    simp only [rneedTail] at hf
+    obtain ⟨f, rfl⟩ : ∃ f, fuel = f + 1 := ⟨fuel - 1, by omega⟩
+    simp only [casesT, ifCases, expTail, emit_nil]
+  | .els body, Pre, post, st, fuel, hc, hok, hpath, hcase, hf => by
+    simp only [BTail.ok] at hok
+    simp only [BTail.pathOk] at hpath
+    simp only [BTail.caseOk] at hcase
+    simp only [rneedTail] at hf
+    simp only [printTail] at hc
+    obtain ⟨f, rfl⟩ : ∃ f, fuel = f + 1 := ⟨fuel - 1, by omega⟩
+    simp only [casesT, ifCases, List.isEmpty_nil, if_true, pure, Except.pure, bind, Except.bind, expTail]
+    have hl : (Pre ++ ELSE).length = Pre.length + 8 := by simp [ELSE]
+    have hc2 : cx.content = (Pre ++ ELSE) ++ ([] ++ (printBTs body ++ (IFEND ++ post))) := by
+      rw [hc]; simp [List.append_assoc]
+    have hr := render_bts cx cfg hg hrn body [] (Pre.length + 8 + (printBTs body).length) (IFEND ++ post)
+      (Pre ++ ELSE) [] st (f - rcostBTs body) hc2 hok hpath hcase (by omega)
+    simp only [List.append_nil, List.nil_append, hl] at hr
+    have := render_finish cx (tagsBTs cfg cx.content (Pre.length + 8) body) (IFEND ++ post) (expBTs cx body)
+      (Pre.length + 8) (Pre.length + 8 + (printBTs body).length) st (f - rcostBTs body) (rcostBTs body)
+      (by have := rneedBTs_pos body; omega) hr
+    rw [show f - rcostBTs body + rcostBTs body = f by omega] at this
+    rw [this]
+  | .elif e body tail, Pre, post, st, fuel, hc, hok, hpath, hcase, hf => by
+    simp only [BTail.ok] at hok
+    obtain ⟨hpe, hq34, hbody, htail⟩ := hok
+    simp only [BTail.pathOk] at hpath
+    simp only [BTail.caseOk] at hcase
+    obtain ⟨hex, hcb, hct⟩ := hcase
+    simp only [rneedTail] at hf
+    simp only [printTail] at hc
+    obtain ⟨f, rfl⟩ : ∃ f, fuel = f + 1 := ⟨fuel - 1, by omega⟩
+    have hcq : cx.content = ((Pre ++ [60, 101, 108, 115, 101, 105, 102, 32, 99, 97, 115, 101, 61]) ++ [34]) ++ (e ++ [34]) ++
+        ([32, 47, 62] ++ (printBTs body ++ printTail tail ++ post)) := by
+      rw [hc]; simp [ELIF, ELIFEND, List.append_assoc]
+    have hA : (Pre ++ [60, 101, 108, 115, 101, 105, 102, 32, 99, 97, 115, 101, 61]).length + 1 = Pre.length + 14 := by simp
+    obtain ⟨hie, v, hv, hvt⟩ := one_case cx cfg hrn st _ e _ hcq hpe hex
+    rw [hA] at hie hv
+    simp only [casesT]
+    rw [ifCases_cons cx f _ _ _ _ _ _ v hie hv, hvt]
+    have hl4 : (Pre ++ (ELIF ++ e ++ ELIFEND)).length = Pre.length + 18 + e.length := by simp [ELIF, ELIFEND]; omega
+    cases hhit : hitOf cx e with
+    | true =>
+      simp only [if_true, expTail, hhit]
+      have hc2 : cx.content = (Pre ++ (ELIF ++ e ++ ELIFEND)) ++ ([] ++ (printBTs body ++ (printTail tail ++ post))) := by
+        rw [hc]; simp [List.append_assoc]
+      have hr := render_bts cx cfg hg hrn body [] (Pre.length + 18 + e.length + (printBTs body).length)
+        (printTail tail ++ post) (Pre ++ (ELIF ++ e ++ ELIFEND)) [] st (f - rcostBTs body) hc2 hbody hpath.1 hcb (by omega)
+      simp only [List.append_nil, List.nil_append, hl4] at hr
+      have := render_finish cx (tagsBTs cfg cx.content (Pre.length + 18 + e.length) body) (printTail tail ++ post)
+        (expBTs cx body) (Pre.length + 18 + e.length) (Pre.length + 18 + e.length + (printBTs body).length)
+        st (f - rcostBTs body) (rcostBTs body) (by have := rneedBTs_pos body; omega) hr
+      rw [show f - rcostBTs body + rcostBTs body = f by omega] at this
+      rw [this]
+    | false =>
+      simp only [Bool.false_eq_true, if_false, expTail, hhit]
+      have hc3 : cx.content = (Pre ++ (ELIF ++ e ++ ELIFEND) ++ printBTs body) ++ (printTail tail ++ post) := by
+        rw [hc]; simp [List.append_assoc]
+      have hl5 : (Pre ++ (ELIF ++ e ++ ELIFEND) ++ printBTs body).length = Pre.length + 18 + e.length + (printBTs body).length := by
+        rw [List.length_append, hl4]
+      have := render_tail cx cfg hg hrn tail (Pre ++ (ELIF ++ e ++ ELIFEND) ++ printBTs body) post st f hc3 htail
+        hpath.2 hct (by omega)
+      rw [hl5] at this
+      exact this
+end
+
+
+/-! ### the reference interpreter on block trees -/
+
+theorem expandList_append (sx : SpecCtx R) (sc : List Binding) : ∀ (a b : List Tpl) (f : Nat),
+    expandList sx f sc (a ++ b) = expandList sx f sc a ++ expandList sx (f - a.length) sc b := by
+  intro a
+  induction a with
+  | nil => intro b f; simp [expandList_nil]
+  | cons t a ih =>
+    intro b f
+    cases f with
+    | zero => simp [expandList]
+    | succ f =>
+      simp only [List.cons_append, expandList, ih b f, List.length_cons, List.append_assoc]
+      rw [show f + 1 - (a.length + 1) = f - a.length by omega]
+
+theorem expandBranches_nil (sx : SpecCtx R) (f : Nat) (sc : List Binding) : expandBranches sx f sc [] = [] := by
+  cases f <;> simp [expandBranches]
+
+mutual
+def eneedBT : BT → Nat
+  | .segs l => l.length + 1
+  | .ifc _ body tail => eneedBTs body + eneedTail tail + 3
+def eneedBTs : BTs → Nat
+  | .nil => 1
+  | .cons b r => eneedBT b + (BT.toTpls b).length + eneedBTs r
+def eneedTail : BTail → Nat
+  | .fin => 0
+  | .els body => eneedBTs body + 1
+  | .elif _ body tail => eneedBTs body + eneedTail tail + 1
+end
+
+mutual
+theorem expand_bt (cx : RCtx R) : ∀ (b : BT) (fuel : Nat), eneedBT b ≤ fuel →
+    expandList (specOf cx) fuel [] b.toTpls = expBT cx b
+  | .segs l, fuel, hf => by
+    simp only [eneedBT] at hf
+    simp only [BT.toTpls, expBT]
+    exact expandList_segs cx (specOf cx) ⟨rfl, rfl, rfl, rfl, rfl, rfl⟩ l fuel hf
+  | .ifc e body tail, fuel, hf => by
+    simp only [eneedBT] at hf
+    obtain ⟨f, rfl⟩ : ∃ f, fuel = f + 3 := ⟨fuel - 3, by omega⟩
+    simp only [BT.toTpls, expandList, expandTpl, expandBranches, expandList_nil, List.append_nil, expBT, hitOf]
+    rw [expand_bts cx body f (by omega), expand_tail cx tail f (by omega)]
+    by_cases hh : isTrue (evalText (specOf cx) [] e 34) = some true <;> simp [hh]
+theorem expand_bts (cx : RCtx R) : ∀ (bs : BTs) (fuel : Nat), eneedBTs bs ≤ fuel →
+    expandList (specOf cx) fuel [] (btsTpl bs) = expBTs cx bs
+  | .nil, fuel, _ => by simp [btsTpl, expBTs, expandList_nil]
+  | .cons b r, fuel, hf => by
+    simp only [eneedBTs] at hf
+    simp only [btsTpl, expBTs]
+    rw [expandList_append, expand_bt cx b fuel (by omega), expand_bts cx r _ (by omega)]
+theorem expand_tail (cx : RCtx R) : ∀ (t : BTail) (fuel : Nat), eneedTail t ≤ fuel →
+    expandBranches (specOf cx) fuel [] (tailBr t) = expTail cx t
+  | .fin, fuel, _ => by simp [tailBr, expTail, expandBranches_nil]
+  | .els body, fuel, hf => by
+    simp only [eneedTail] at hf
+    obtain ⟨f, rfl⟩ : ∃ f, fuel = f + 1 := ⟨fuel - 1, by omega⟩
+    simp only [tailBr, expandBranches, if_true, expTail]
+    exact expand_bts cx body f (by omega)
+  | .elif e body tail, fuel, hf => by
+    simp only [eneedTail] at hf
+    obtain ⟨f, rfl⟩ : ∃ f, fuel = f + 1 := ⟨fuel - 1, by omega⟩
+    simp only [tailBr, expandBranches, expTail, hitOf]
+    rw [expand_bts cx body f (by omega), expand_tail cx tail f (by omega)]
+    by_cases hh : isTrue (evalText (specOf cx) [] e 34) = some true <;> simp [hh]
+end
+
+end
+
+/-! ### top level -/
+
+mutual
+theorem costBT_le : ∀ (b : BT), costBT b ≤ (printBT b).length
+  | .segs l => by simp only [costBT, printBT]; exact nTags_le l
+  | .ifc e body tail => by
+    have := costBTs_le body; have := costTail_le tail
+    simp [costBT, printBT, IFOPEN]; omega
+theorem costBTs_le : ∀ (bs : BTs), costBTs bs ≤ (printBTs bs).length
+  | .nil => by simp [costBTs]
+  | .cons b r => by
+    have := costBT_le b; have := costBTs_le r
+    simp [costBTs, printBTs]; omega
+theorem costTail_le : ∀ (t : BTail), costTail t ≤ (printTail t).length
+  | .fin => by simp [costTail, printTail, IFEND]
+  | .els body => by have := costBTs_le body; simp [costTail, printTail, ELSE, IFEND]; omega
+  | .elif e body tail => by
+    have := costBTs_le body; have := costTail_le tail
+    simp [costTail, printTail, ELIF, ELIFEND]; omega
+end
+
+/-- `parse_tree`: the printed block tree parses to exactly the implied tags -/
+theorem parse_tree (cfg : ScanCfg R) (bs : BTs) (hok : bs.ok)
+    (hn : (printBTs bs).length + 16 < 4294967296) :
+    parse cfg (printBTs bs) = .ok (tagsBTs cfg (printBTs bs) 0 bs) := by
+  obtain ⟨o, m, hnx, _⟩ := next_safe_total (printBTs bs) 0 (Nat.zero_le _)
+  have h0 : finderNext (printBTs bs) ({} : PState R) = .ok (stAt [] [] o m) := by
+    simp [finderNext, hnx, bind, Except.bind, stAt]
+  have hend : next (printBTs bs) (([] : List Nat).length + (printBTs bs).length) = .ok ((printBTs bs).length, 0) := by
+    rw [List.length_nil, Nat.zero_add]
+    apply next_plain_end _ _ (Nat.le_refl _)
+    intro i h1 h2; omega
+  have hcost := costBTs_le bs
+  have hm := parse_bts cfg (printBTs bs) hn bs [] [] [] ([] : List (Tag R))
+    (2 * (printBTs bs).length + 4 - costBTs bs) o m _ _ (by simp) hok hnx hend
+  rw [show 2 * (printBTs bs).length + 4 - costBTs bs + costBTs bs = 2 * (printBTs bs).length + 4 by omega] at hm
+  have hlast : parseMain cfg (printBTs bs) (2 * (printBTs bs).length + 4 - costBTs bs)
+      (stAt [] ([] ++ tagsBTs cfg (printBTs bs) ([] : List Nat).length bs) (printBTs bs).length 0) =
+      .ok (stAt [] ([] ++ tagsBTs cfg (printBTs bs) ([] : List Nat).length bs) (printBTs bs).length 0) := by
+    rw [show 2 * (printBTs bs).length + 4 - costBTs bs = (2 * (printBTs bs).length + 3 - costBTs bs) + 1 by omega]
+    simp [parseMain, stAt]
+  rw [hlast] at hm
+  simp only [stAt] at h0 hm
+  simp only [parse, h0, bind, Except.bind, hm, cleanup, List.nil_append, List.length_nil]
+
+/-- rendering the implied tags of a block tree prints the documented expansion -/
+theorem renderTop_tree [RealLike R] (cx : RCtx R) (cfg : ScanCfg R) (hg : cx.guardIndexRead = true)
+    (hrn : cfg.readNum = cx.readNum) (bs : BTs) (hc : cx.content = printBTs bs)
+    (hok : bs.ok) (hpath : bs.pathOk) (hcase : bs.caseOk cfg.readNum) (fuel : Nat) (hf : rneedBTs bs ≤ fuel) :
+    renderTop cx (tagsBTs cfg cx.content 0 bs) (fuel + rcostBTs bs) = .ok (expBTs cx bs) := by
+  have hr := render_bts cx cfg hg hrn bs [] cx.content.length [] [] [] {} fuel (by simpa using hc) hok hpath hcase hf
+  simp only [List.append_nil, List.nil_append, List.length_nil, Nat.zero_add] at hr
+  have := render_finish cx (tagsBTs cfg cx.content 0 bs) [] (expBTs cx bs) 0 cx.content.length {} fuel (rcostBTs bs)
+    (by have := rneedBTs_pos bs; omega) (by
+      obtain ⟨B2, txt2, st2, h1, h2, h3, h4, h5⟩ := hr
+      exact ⟨B2, txt2, st2, by simpa using h1, by rw [h2, hc], by simpa using h3, h4, h5⟩)
+  simp only [renderTop, this, bind, Except.bind, emit]
+  simp
 
 end Qentem.Tmpl
